@@ -594,6 +594,14 @@ def check_type(run, cx, cfg, adt, only=None):
     short_adt = adt.rsplit('::', 1)[-1]
     specf = spec_bounded if adt == B else spec_fixed
     n_spec = n_generic = 0
+    want_fields = {'start', 'len', 'data'} if adt == B else {'first', 'data'}
+    have = set(cx.field_names(adt))
+    if have != want_fields:
+        # the abstraction function of the refinement is defined on (start, len, data) / (first, data): a representation with
+        # further state (a cached index, a flag) needs its own invariant and a restated refinement
+        run.unproven('rb.state', adt, cfg, 'the representation of %s has the fields %s; the refinement proof models %s -- the extra / missing state is not covered by the invariant, '
+                     'so no method of the type is established' % (short_adt, sorted(have), sorted(want_fields)))
+        return 0, 0
     for b in sorted(method_bodies(cx, adt), key=lambda b: b['path']):
         fn = b['path']
         imp = b['impl']
